@@ -15,11 +15,11 @@ def jobs(tier):
     q = tier == "quick"
     out = []
     for shape in range(8):
-        for nr in ((0, 1, 3) if q else range(7)):
-            for n3 in ((0, 4) if q else range(7)):
+        for nr in ((0, 1, 3) if q else (0, 1, 3, 5)):
+            for n3 in ((0, 4) if q else (0, 1, 4, 6)):
                 out.append(CH(name=f"c17_three_s{shape}_r{nr}_c{n3}", base="c17_three", func=f"{H}:c17_three",
                               params=[("n1", "int"), ("n2", "int"), ("size", "int"), ("v", "int"), ("k", "int")],
-                              pre=["0 <= n1 < 7", "0 <= n2 < 7", f"1 <= size <= {2 if q else 3}", "0 <= v <= 2", "0 <= k <= 2"] + (["size == 2", "v == 1", "k <= 1", "n2 == 0 or n2 == 4"] if q else []),
+                              pre=["0 <= n1 < 7", "0 <= n2 < 7", "1 <= size <= 2", "0 <= v <= 2", "0 <= k <= 2"] + (["size == 2", "v == 1", "k <= 1", "n2 == 0 or n2 == 4"] if q else ["size == 2", "v == 1"]),
                               fixed={"shape": shape, "nr": nr, "n3": n3, "x": 0 if q else (shape % 4)}, timeout=600 if q else 2400,
                               functions=["qsyntax.circuit", "circuit_from_stack", "Namer.name_let", "Namer.name_register", "Namer._choose_name", "QBlock.build",
                                          "QGateCall.build", "starts_with_prepare", "CircuitBuilder.*", "parse_jaqal_string"],
